@@ -128,9 +128,9 @@ theorem C10_consecutive_duplicate_dropped (prev : Nat) (c d : Chunk) (t : List C
 
 /-- so inside a multi-chunk message a verbatim copy right after the original
     does not change the merged body (the message must have two or more chunks
-    apart from the copy: the single-chunk shortcut bypasses the filter) -/
-theorem C10_duplicate_in_message (pre : List Chunk) (c : Chunk) (post : List Chunk)
-    (h2 : 2 ≤ (pre ++ c :: post).length) :
+    apart from the copy: the single-chunk shortcut bypasses the filter — which
+    is harmless there, `[c, c]` merges to `c.data` as well) -/
+theorem C10_duplicate_in_message (pre : List Chunk) (c : Chunk) (post : List Chunk) :
     mergeChunks (pre ++ c :: c :: post) = mergeChunks (pre ++ c :: post) := by
   have loop : ∀ (prev : Nat) (pre : List Chunk),
       mergeLoop prev (pre ++ c :: c :: post) = mergeLoop prev (pre ++ c :: post) := by
@@ -142,18 +142,18 @@ theorem C10_duplicate_in_message (pre : List Chunk) (c : Chunk) (post : List Chu
       split
       · exact ih prev
       · rw [ih x.seq]
-  have e1 : mergeChunks (pre ++ c :: c :: post) = mergeLoop 0 (pre ++ c :: c :: post) := by
-    match pre, post with
-    | [], _ => simp [mergeChunks]
-    | [x], _ => simp [mergeChunks]
-    | x :: y :: r, _ => simp [mergeChunks]
-  have e2 : mergeChunks (pre ++ c :: post) = mergeLoop 0 (pre ++ c :: post) := by
-    match pre, post, h2 with
-    | [], [], h => simp at h
-    | [], z :: w, _ => simp [mergeChunks]
-    | [x], _, _ => simp [mergeChunks]
-    | x :: y :: r, _, _ => simp [mergeChunks]
-  rw [e1, e2, loop]
+  match pre, post with
+  | [], [] => simp [mergeChunks, mergeLoop]
+  | [], z :: w => simp [mergeChunks, mergeLoop]
+  | [x], _ =>
+    simp only [List.cons_append, List.nil_append, mergeChunks]
+    have := loop x.seq []
+    simp only [List.nil_append] at this
+    rw [this]
+  | x :: y :: r, _ =>
+    simp only [List.cons_append, mergeChunks]
+    have := loop x.seq (y :: r)
+    simpa using congrArg (x.data ++ ·) this
 
 /-- the guarantee is that narrow: a copy that does not follow its original
     immediately is merged a second time, and a copy of a two-chunk message's
